@@ -212,7 +212,11 @@ class Ctx:
                 self.merge(sc.export())
             return
         mpctx = mp.get_context("fork")
-        jobs = [(self, func, i, p) for i, p in enumerate(parts)]
+        # the jobs are pickled by the pool's feeder thread while this thread merges finished parts into
+        # `self`: they carry an empty stand-in with the parent's identity, never the parent itself
+        stub = Ctx(self.pid, self.tier, self.seed, self.level, self.scratch)
+        stub.deadline = self.deadline
+        jobs = [(stub, func, i, p) for i, p in enumerate(parts)]
         with mpctx.Pool(nproc, maxtasksperchild=None) as pool:
             for res in pool.imap_unordered(_pmap_worker, jobs, chunksize=1):
                 if "error" in res:
